@@ -163,6 +163,8 @@ impl Runner {
                 "f" => match rd.fill_buf() { Ok(b) => { avail = b.len(); out.push(format!("ok:{}", hex(b))); } Err(e) => { out.push(format!("err:{}", kind(&e))); } },
                 "c" => { let k = arg.parse::<usize>().unwrap().min(avail); rd.consume(k); avail -= k; out.push(format!("c{}", k)); }
                 "r" => { let n: usize = arg.parse().unwrap(); let mut buf = vec![0u8; n]; match rd.read(&mut buf) { Ok(k) => { out.push(format!("ok:{}", hex(&buf[..k]))); avail = avail.saturating_sub(k); } Err(e) => out.push(format!("err:{}", kind(&e))) } }
+                // std::io::Read::read_exact: whole buffer or an error (UnexpectedEof when the data ends first)
+                "x" => { let n: usize = arg.parse().unwrap(); let mut buf = vec![0u8; n]; avail = 0; match std::io::Read::read_exact(&mut rd, &mut buf) { Ok(()) => out.push(format!("ok:{}", hex(&buf))), Err(e) => out.push(format!("err:{}", kind(&e))) } }
                 // drain: fill_buf / consume(all) until the end or an error
                 "D" => { let mut got = vec![]; let status; loop { match rd.fill_buf() { Ok(b) if b.is_empty() => { status = "end".to_string(); break; } Ok(b) => { let l = b.len(); got.extend_from_slice(b); rd.consume(l); } Err(e) => { status = kind(&e); break; } } if got.len() > 10_000_000 { status = "runaway".to_string(); break; } } avail = 0; out.push(format!("D:{}:{}", hex(&got), status)); }
                 _ => out.push("bad".into()),
@@ -330,6 +332,12 @@ impl Runner {
                 else if *op == "more" { r.has_more_rbsp_data("f").map(|v| v.to_string()) }
                 else if *op == "finish" { let x = br.take().unwrap().finish_rbsp().map(|_| "ok".to_string()); match x { Ok(s) => { out.push(s); } Err(e) => { out.push(bre(&e)); } } continue; }
                 else if *op == "seifinish" { let x = br.take().unwrap().finish_sei_payload().map(|_| "ok".to_string()); match x { Ok(s) => { out.push(s); } Err(e) => { out.push(bre(&e)); } } continue; }
+                else if *op == "rd" {
+                    // the byte-aligned borrow of the underlying reader: consume one byte through it
+                    let o = match r.reader() { None => "rd:unaligned".to_string(), Some(u) => { let n = match u.fill_buf() { Ok(b) => if b.is_empty() { 0 } else { 1 }, Err(_) => 9 }; if n == 1 { u.consume(1); } match n { 0 => "rd:0".into(), 1 => "rd:1".into(), _ => "rd:err".into() } } };
+                    // an error of the underlying reader ends the program, like an error of any read
+                    if o == "rd:err" { br = None; }
+                    out.push(o); continue; }
                 else if let Some(n) = op.strip_prefix("skip") { r.skip(n.parse().unwrap(), "f").map(|_| "ok".to_string()) }
                 else if let Some(n) = op.strip_prefix('u') { let n: u32 = n.parse().unwrap(); if n <= 32 { r.read::<u32>(n, "f").map(|v| v.to_string()) } else { r.read::<u64>(n, "f").map(|v| v.to_string()) } }
                 else { Ok("bad".to_string()) };
